@@ -709,6 +709,25 @@ fn counts_at_breakdown() {
             }
         }
     }
+    // explicit methods: huge but finite values and a step that is too coarse, so that a stage or the candidate state overflows
+    // while the run goes on (y' = -1000 y from 1e300 with first_step 1, and its mirror): every attempt's evaluations are counted
+    for method in [Method::RK23, Method::DOPRI5, Method::DOP853] {
+        for (lam, xend, y0v) in [(-1000.0, 1.0, 1e300), (1000.0, -1.0, 1e300), (-1000.0, 1.0, -3e299)] {
+            struct Lin { lam: f64, calls: std::cell::Cell<usize> }
+            impl IVP for Lin { fn ode(&self, _x: f64, y: &[f64], d: &mut [f64]) { self.calls.set(self.calls.get() + 1); d[0] = self.lam * y[0]; } }
+            let f = Lin { lam, calls: 0.into() };
+            let mut o = Options::builder().method(method).rtol(1e-6).atol(1e-9).max_steps(100_000).build();
+            o.first_step = Some(1.0);
+            let (mut why, mut key, mut status) = (String::new(), "", String::new());
+            if let Ok(Ok(sol)) = catch_unwind(AssertUnwindSafe(|| solve_ivp(&f, 0.0, xend, &[y0v], o))) {
+                status = format!("{:?}", sol.status);
+                if sol.nfev != f.calls.get() { why = format!("nfev = {} but the stepper made {} right-hand-side evaluations (status {}, {} rejected attempts)", sol.nfev, f.calls.get(), status, sol.nrejct); key = "c18-nfev"; }
+            }
+            println!("{{\"kind\":\"iv\",\"case\":{},\"problem\":\"y'={}y from {:e}, first_step 1\",\"method\":\"{}\",\"branch\":\"counts-at-breakdown\",\"finding_key\":\"{}\",\"status\":\"{}\",\"ok\":{},\"why\":{:?}}}",
+                520000 + k, lam, y0v, method_name(method), key, status, why.is_empty(), why);
+            k += 1;
+        }
+    }
     // low-level BDF with a Newton iteration limit of 1 and 2: no attempt can establish convergence with one iteration
     for maxiter in [1usize, 2] {
         for analytic in [true, false] {
@@ -980,6 +999,42 @@ pub fn options(args: &[String]) {
             }
         }
         out("op", case, &c, "subsets", key, &why, "");
+    }
+    // rough problems at coarse tolerances (many rejected steps, retries capped by the previous step): every method, plain run
+    // against the run with dense output / t_eval / an event — bit for bit, statistics included
+    {
+        struct Vdp5;
+        impl IVP for Vdp5 {
+            fn ode(&self, _x: f64, y: &[f64], d: &mut [f64]) { d[0] = y[1]; d[1] = 5.0 * (1.0 - y[0] * y[0]) * y[1] - y[0]; }
+            fn n_events(&self) -> usize { 1 }
+            fn events(&self, _x: f64, y: &[f64], out: &mut [f64]) { out[0] = y[0] - 0.3; }
+        }
+        struct Vdp5Plain;
+        impl IVP for Vdp5Plain { fn ode(&self, x: f64, y: &[f64], d: &mut [f64]) { Vdp5.ode(x, y, d) } }
+        let mut k = 0;
+        for method in ALL_METHODS {
+            for (rtol, xend) in [(1e-3, 12.0), (0.5, 12.0), (1e-2, -6.0)] {
+                let mk = |dense: bool, teval: bool| { let mut o = Options::builder().method(method).rtol(rtol).atol(rtol * 1e-3).build(); o.dense_output = dense; if teval { o.t_eval = Some((1..=9).map(|j| xend * j as f64 / 9.0).collect()); } o };
+                let base = solve_ivp(&Vdp5Plain, 0.0, xend, &[2.0, 0.0], mk(false, false));
+                let (mut why, mut key) = (String::new(), "");
+                if let Ok(base) = base {
+                    for (name, r) in [("dense_output", solve_ivp(&Vdp5Plain, 0.0, xend, &[2.0, 0.0], mk(true, false))), ("events", solve_ivp(&Vdp5, 0.0, xend, &[2.0, 0.0], mk(false, false))),
+                                      ("t_eval", solve_ivp(&Vdp5Plain, 0.0, xend, &[2.0, 0.0], mk(false, true)))] {
+                        if let Ok(r) = r {
+                            if (r.nfev, r.nstep, r.naccpt, r.nrejct, r.status) != (base.nfev, base.nstep, base.naccpt, base.nrejct, base.status) {
+                                why = format!("Van der Pol (mu = 5), rtol {}: with {} the statistics are (nfev {}, nstep {}, naccpt {}, nrejct {}), plain run ({}, {}, {}, {})", rtol, name, r.nfev, r.nstep, r.naccpt, r.nrejct, base.nfev, base.nstep, base.naccpt, base.nrejct); key = "c12-stats"; break;
+                            }
+                            if name != "t_eval" && !(bits_eq(&r.t, &base.t) && rows_eq(&r.y, &base.y)) {
+                                let i = (0..r.t.len().min(base.t.len())).find(|&i| r.t[i].to_bits() != base.t[i].to_bits() || !bits_eq(&r.y[i], &base.y[i]));
+                                why = format!("Van der Pol (mu = 5), rtol {}: with {} the accepted samples differ from the plain run from sample {:?} on", rtol, name, i); key = "c12-samples"; break;
+                            }
+                        }
+                    }
+                }
+                println!("{{\"kind\":\"op\",\"case\":{},\"problem\":\"VdP mu=5\",\"method\":\"{}\",\"x0\":0,\"xend\":{},\"rtol\":{},\"branch\":\"rough\",\"finding_key\":\"{}\",\"ok\":{},\"why\":{:?}}}", 900000 + k, method_name(method), xend, rtol, key, why.is_empty(), why);
+                k += 1;
+            }
+        }
     }
     observer_presence();
 }
